@@ -143,6 +143,8 @@ func (ke *kindEnv) base(st *pstate, a *Sym) KindSet {
 			return ksAll
 		case isReflectMethod(fn, "Index"):
 			return ksValid
+		case fn.Pkg != nil && fn.Pkg.Pkg.Path() == "reflect" && fn.Signature.Recv() != nil && namedIs(fn.Signature.Recv().Type(), "reflect", "MapIter") && (fn.Name() == "Key" || fn.Name() == "Value"):
+			return ksValid
 		case isReflectMethod(fn, "MapIndex"):
 			// m.MapIndex(k) with k one of m.MapKeys(): the entry exists
 			if len(args) == 2 && args[1].K == sLoad && args[1].A.K == sIndexAddr {
